@@ -73,6 +73,35 @@ func seeds() []seed {
 		return s
 	}})
 
+	// tripkg: one object name (Legacy, a struct with the same fields; Mode, a
+	// string constant) in three packages, next to each package's own objects,
+	// with references across the packages; gamma also has a lower-case twin.
+	legacy := func(extra string) irgen.Term {
+		return StructN([]irgen.Field{F("id", true), F("name", false), F(extra, false)},
+			[]irgen.Term{S("string"), {K: "scalar", A: "string", Default: "scalar"}, S("bool")})
+	}
+	tripkg := irgen.SchemaSpec{Name: "tripkg", Pkgs: []irgen.PkgSpec{
+		{Pkg: "alpha", EntryPoint: "Dashboard", Objects: []irgen.ObjSpec{
+			{Name: "Dashboard", T: StructN([]irgen.Field{F("id", true), F("old", false), F("theirs", false)},
+				[]irgen.Term{S("string"), Ref("alpha.Legacy"), Ref("beta.Legacy")})},
+			{Name: "Legacy", Comments: []string{"alpha's"}, T: legacy("a")},
+			{Name: "Mode", T: irgen.Const("str")},
+			{Name: "Link", T: StructN([]irgen.Field{F("id", false), F("url", true)}, []irgen.Term{S("int64"), S("string")})},
+		}},
+		{Pkg: "beta", Objects: []irgen.ObjSpec{
+			{Name: "Legacy", Comments: []string{"beta's"}, T: legacy("b")},
+			{Name: "Mode", T: irgen.Const("str")},
+			{Name: "Panel", T: StructN([]irgen.Field{F("id", true), F("mode", false)}, []irgen.Term{S("string"), Ref("gamma.Mode")})},
+		}},
+		{Pkg: "gamma", Objects: []irgen.ObjSpec{
+			{Name: "Legend", T: StructN([]irgen.Field{F("id", true)}, []irgen.Term{S("string")})},
+			{Name: "Legacy", Comments: []string{"gamma's"}, T: legacy("c")},
+			{Name: "legacy", T: StructN([]irgen.Field{F("id", true)}, []irgen.Term{Ref("gamma.Legacy")})},
+			{Name: "Mode", T: irgen.Const("str")},
+		}},
+	}}
+	out = append(out, specSeed(tripkg))
+
 	hinted := irgen.SchemaSpec{Name: "hinted", Pkgs: []irgen.PkgSpec{{Pkg: P, EntryPoint: "SOrT", Objects: append([]irgen.ObjSpec{
 		{Name: "SOrT", T: StructN([]irgen.Field{F("S", false), F("T", false)}, []irgen.Term{irgen.Nullable(Ref(P + ".S")), irgen.Nullable(Ref(P + ".T"))})},
 		{Name: "Holder", T: StructN([]irgen.Field{F("u", true)}, []irgen.Term{Ref(P + ".SOrT")})},
